@@ -510,6 +510,8 @@ class Expander:
     def binop(self, op, a, b, node=None):
         if isinstance(op, ast.Add) and isinstance(a, (ListV, TupleV)) and isinstance(b, (ListV, TupleV)):
             return type(a)(a.items + b.items)
+        if isinstance(op, (ast.BitAnd, ast.BitOr, ast.BitXor)):
+            return CmpV(type(op).__name__, [a, b], None, node)
         a, b = self.need_r(a), self.need_r(b)
         if isinstance(op, ast.Add):
             return a + b
